@@ -11,8 +11,10 @@
 
     * `delivery`   — first sentence: a user is notified only if every enable flag, period and filter
                      admits it; forced notifications only need the user's enable flag.
-    * `recipients` — Recovery / Acknowledgement only to users who were sent a Problem since the last
-                     Recovery (or who do not subscribe to Problem).
+    * `recipients` — Recovery / Acknowledgement only to users who were sent a Problem for the current
+                     incident (or who do not subscribe to Problem).  The incident ends when the notification
+                     object processes a Recovery (sends it, or discards it by its type filter); a Recovery
+                     that is only withheld because the notification period is closed does not end it.
     * `noDup`      — non-volatile: no non-reminder Problem to a user for the state of the Problem that user
                      was sent last, without a Recovery in between.
     * `reminder`   — reminders only from the timer, only in a hard problem state that is neither
@@ -103,11 +105,17 @@ def deliveryEv (c : Cfg) (k : OpKind) (e : Env) (_ : Unit) (ev : Event) : Option
 def notSubscribed (e : Env) (uid : Nat) : Bool :=
   e.users.any fun u => u.id == uid && !admits u.typeFilter NType.problem.bit
 
-/-- `ps`: users sent a Problem since the last Recovery. -/
-def recipientsEv (e : Env) (ps : List Nat) (ev : Event) : Option Clause × List Nat :=
+/-- A Recovery that is merely withheld: unforced, while the notification period is closed.  It does not end
+    the incident — it is kept and re-sent later to exactly the users of the incident (or neutralised by a new
+    Problem, in which case those users were never told that the problem ended). -/
+def recoveryWithheld (k : OpKind) (e : Env) : Bool := !forceOf k e && !e.periodOpen
+
+/-- `ps`: users sent a Problem for the current incident, i.e. since the last Recovery the notification object
+    processed (sent to its users, or discarded by its type filter). -/
+def recipientsEv (k : OpKind) (e : Env) (ps : List Nat) (ev : Event) : Option Clause × List Nat :=
   (if ev.passed && (ev.ty == .recovery || ev.ty == .ack) &&
       !ev.users.all (fun uid => ps.contains uid || notSubscribed e uid) then some .recoveryAckRecipients else none,
-   if ev.ty == .recovery then []
+   if ev.ty == .recovery then (if !ev.passed && recoveryWithheld k e then ps else [])
    else if ev.ty == .problem && ev.passed then ev.users ++ ps else ps)
 
 /-! ### noDup (second sentence, second half) -/
@@ -172,7 +180,7 @@ def runTrace {G : Type} (step : G → Obs → Option Clause × G) : G → List O
     | (none, g') => runTrace step g' rest
 
 def deliveryObs (c : Cfg) (g : Unit) (o : Obs) : Option Clause × Unit := evFold (deliveryEv c o.kind o.env) g o.events
-def recipientsObs (ps : List Nat) (o : Obs) : Option Clause × List Nat := evFold (recipientsEv o.env) ps o.events
+def recipientsObs (ps : List Nat) (o : Obs) : Option Clause × List Nat := evFold (recipientsEv o.kind o.env) ps o.events
 def noDupObs (ls : Nat → Option Nat) (o : Obs) : Option Clause × (Nat → Option Nat) := evFold (noDupEv o.env) ls o.events
 def reminderObs (c : Cfg) (g : RemSt) (o : Obs) : Option Clause × RemSt :=
   evFold (reminderEv c o.kind o.env) (remValidate o.env g) o.events
